@@ -268,7 +268,10 @@ class Runner(object):
             uws.update(self.loops_of(gb, ob.unwind_funcs))
         if uws:
             cmd += ['--unwindset', ','.join('%s:%d' % kv for kv in sorted(uws.items()))]
-        cmd += ob.flags
+        cmd += [f for f in ob.flags if f != '--no-slice-formula']
+        if '--no-slice-formula' in ob.flags:
+            # keep every nondet assignment in the trace (needed when hundreds of input bytes must be replayed in order)
+            cmd = [c for c in cmd if c != '--slice-formula']
         if ob.engine == 'ir':
             # -O1 IR forms out-of-object pointers speculatively (select of &a[i-1]); the check is meaningless there
             cmd = [c for c in cmd if c != '--pointer-overflow-check']
